@@ -87,16 +87,19 @@ Definition opt_rows_perm_eqb (a b : option (list string)) : bool :=
   | _, _ => false
   end.
 
-(* case = ((input, (old rows, new rows as given to the implementation)), implementation rows) *)
-Definition case := ((input * (list string * list string)) * option (list string))%type.
+(* case = ((input, (old rows, new rows) as given to the implementation), implementation rows);
+   rows = None: the harness gave the implementation exactly the text Coq prints (small
+   exhaustive scope, where the text is not repeated in the case file) *)
+Definition case := ((input * option (list string * list string)) * option (list string))%type.
 
 (* the text printed by the harness is the text of the structured lines, and the text-level
    model of the (repaired) code emits the implementation's rows up to order *)
 Definition agree (c : case) : bool :=
   let x := fst (fst c) in
-  let t := snd (fst c) in
-  list_str_eqb (map (print_line (in_rule x)) (in_old x)) (fst t) &&
-  list_str_eqb (map (print_line (in_rule x)) (in_new x)) (snd t) &&
+  let po := map (print_line (in_rule x)) (in_old x) in
+  let pn := map (print_line (in_rule x)) (in_new x) in
+  let t := match snd (fst c) with Some t => t | None => (po, pn) end in
+  list_str_eqb po (fst t) && list_str_eqb pn (snd t) &&
   opt_rows_perm_eqb (model_rows (in_rule x) (fst t) (snd t)) (snd c).
 
 Definition holds (c : case) : bool := P_C11 (fst (fst c)) (snd c).
@@ -133,3 +136,79 @@ Definition diagnose (x : input) (y : option (list string)) : string :=
       else "ok"
     end
   end.
+
+(* ---- compact case files -------------------------------------------------------------
+   A case file holds all its cases in ONE string (a list notation with thousands of
+   structured terms costs ~10 ms per case to elaborate, one string literal ~0.01 ms):
+       idx|kind|old|new|given|out
+   old/new : lines joined by ";" ; a line is [+]a-b,c,... ("+" = add form), "n" = none line
+   given   : "=" (the implementation was given the text Coq prints) or  r/r/r~r/r
+   out     : "!" (raised) or the emitted rows joined by "/"
+   A line that cannot be decoded is reported as failing (fail closed). *)
+
+Definition c_bar : ascii := "|"%char.
+Definition c_semi : ascii := ";"%char.
+Definition c_slash : ascii := "/"%char.
+Definition c_tilde : ascii := "~"%char.
+Definition c_plus : ascii := "+"%char.
+
+Definition split_ne (c : ascii) (s : string) : list string :=
+  if is_empty s then [] else split_char c s.
+
+Fixpoint all_some {A} (l : list (option A)) : option (list A) :=
+  match l with
+  | [] => Some []
+  | None :: _ => None
+  | Some x :: r => match all_some r with Some xs => Some (x :: xs) | None => None end
+  end.
+
+Definition decode_line (s : string) : option line :=
+  if String.eqb s "n" then Some (false, [])
+  else match s with
+       | String c r => if Ascii.eqb c c_plus then option_map (pair true) (cisco_parse_ranges r)
+                       else option_map (pair false) (cisco_parse_ranges s)
+       | EmptyString => None
+       end.
+
+Definition decode_lines (s : string) : option (list line) :=
+  all_some (map decode_line (split_ne c_semi s)).
+
+Definition decode_given (g : string) : option (option (list string * list string)) :=
+  if String.eqb g "=" then Some None
+  else match split_char c_tilde g with
+       | [a; b] => Some (Some (split_ne c_slash a, split_ne c_slash b))
+       | _ => None
+       end.
+
+Definition decode_case (kinds : list (string * rulek)) (fields : list string) : option case :=
+  match fields with
+  | [kd; o; n; g; out] =>
+    match find (fun p => String.eqb (fst p) kd) kinds, decode_lines o, decode_lines n, decode_given g with
+    | Some (_, k), Some ol, Some nl, Some gv =>
+      Some (((k, ol, nl), gv), if String.eqb out "!" then None else Some (split_ne c_slash out))
+    | _, _, _, _ => None
+    end
+  | _ => None
+  end.
+
+(* indices of the lines on which f is false (or that cannot be decoded) *)
+Definition bad_line (kinds : list (string * rulek)) (f : case -> bool) (l : string) : list N :=
+  match split_char c_bar l with
+  | i :: fields =>
+    if isdigit i then
+      match decode_case kinds fields with
+      | Some c => if f c then [] else [N_of_str i]
+      | None => [N_of_str i]
+      end
+    else [4294967295%N]
+  | [] => [4294967295%N]
+  end.
+
+Definition bad_cases (kinds : list (string * rulek)) (f : case -> bool) (data : string) : list N :=
+  flat_map (bad_line kinds f) (split_lines data).
+
+Definition all3 (c : case) : bool := agree c && holds c && struct_is_text c.
+
+(* (cases failing anything; then, among those only, which predicate failed) *)
+Definition check_data (kinds : list (string * rulek)) (data : string) : list N :=
+  bad_cases kinds all3 data.
